@@ -273,14 +273,14 @@ static void ht_apply_parked(struct ht_env *e, struct ht_parg *g, struct parker *
 
 enum { HO_LOOKUP_TARGET, HO_LOOKUP_ABSENT, HO_LOOKUP_OTHER, HO_LOOKUP_PARKED_KEY, HO_TRAVERSE, HO_ADD_SAME, HO_ADD_SAMEHASH,
        HO_ADD_OTHER, HO_ADDU_EXISTING, HO_ADDU_PARKED_KEY, HO_ADDU_OTHER, HO_ADDR_EXISTING, HO_ADDR_NEW, HO_REPLACE_TARGET,
-       HO_REPLACE_OTHER, HO_DEL_TARGET, HO_DEL_TARGET_PTR, HO_DEL_OTHER, HO_NR };
+       HO_REPLACE_OTHER, HO_DEL_TARGET, HO_DEL_TARGET_PTR, HO_DEL_OTHER, HO_REPLACE_STALE, HO_NR };
 static const char *const ho_name[HO_NR] = {
 	"lfht_lookup", "lfht_lookup_absent", "lfht_lookup_other_bucket", "lfht_lookup_parked_key", "lfht_first_next",
 	"lfht_add", "lfht_add_same_hash", "lfht_add_other_bucket", "lfht_add_unique_existing", "lfht_add_unique_parked_key",
 	"lfht_add_unique_other_bucket", "lfht_add_replace_existing", "lfht_add_replace_new", "lfht_replace", "lfht_replace_other_bucket",
-	"lfht_del", "lfht_del_by_pointer", "lfht_del_other_bucket" };
+	"lfht_del", "lfht_del_by_pointer", "lfht_del_other_bucket", "lfht_replace_stale_iterator" };
 static const int ho_cls[HO_NR] = { OC_WALK, OC_WALK, OC_WALK, OC_WALK, OC_WALK, OC_LF, OC_LF, OC_LF, OC_LF, OC_LF, OC_LF, OC_LF, OC_LF,
-	OC_LF, OC_LF, OC_LF, OC_LF, OC_LF };
+	OC_LF, OC_LF, OC_LF, OC_LF, OC_LF, OC_LF };
 
 static void ht_subject(struct ht_env *e, int o, unsigned long parked_key)
 {
@@ -433,6 +433,29 @@ static void ht_subject(struct ht_env *e, int o, unsigned long parked_key)
 			e->removed[hn_of(n)->id]++;
 			e->live[x->id] = 1;
 		}
+		triple_op(os, res, wrong, -1);
+		break;
+	}
+	case HO_REPLACE_STALE: {
+		/* lookup; the looked-up node is removed (by this same thread, same read-side section); replace through
+		 * the now stale iterator: must come back with -ENOENT, in a bounded number of steps */
+		struct hn *x;
+		int r, rd;
+		key = K4;
+		cds_lfht_lookup(e->ht, HHASH(key), ht_match, &key, &it);
+		n = cds_lfht_iter_get_node(&it);
+		x = ht_node(e, key);
+		rd = n ? cds_lfht_del(e->ht, n) : -ENOENT;
+		if (n && rd == 0) {
+			e->live[hn_of(n)->id] = 0;
+			e->removed[hn_of(n)->id]++;
+		}
+		step_begin(os);
+		STEP_ON(); r = cds_lfht_replace(e->ht, &it, HHASH(key), ht_match, &key, &x->n); STEP_OFF();
+		step_end();
+		snprintf(res, sizeof(res), "key %lx: node %d deleted (%d) between lookup and replace -> %d", key, n ? hn_of(n)->id : 0, rd, r);
+		if (r != -ENOENT)
+			wrong = "the iterator's node was removed (or never found): -ENOENT expected";
 		triple_op(os, res, wrong, -1);
 		break;
 	}
